@@ -397,3 +397,26 @@ def synchronisation_takes_only_the_verified_answer(t, mono, outcome, value, rtag
         assert t._clock_difference == cd and t.timer_authenticated and t.timekeeper and ghost("resched") == [None]
     else:
         assert t._clock_difference == cd and not t.timer_authenticated and ghost("resched") == []
+
+
+# ------------------------------------------------------------------ the time base behind the _monotonic_ms contract stub
+
+from pyvc.api import Float  # noqa: E402
+
+
+class ClockLoop:
+    """The event loop's clock: time() in seconds (a real number)."""
+
+    def time(self):
+        return ghost("loop_time")[0]
+
+
+@lemma("C30", params=dict(t=Obj(SecureSequenceTimer, _loop=Obj(ClockLoop)), now=Float(lo=0.0, hi=1.0e9)), float_mode="real")
+def the_timer_counts_whole_milliseconds_of_the_loop_clock(t, now):
+    """_monotonic_ms (every other timer lemma takes its value as given): the loop clock in milliseconds,
+    rounded down - never more than a millisecond behind the clock, never ahead of it; so 'timely' is judged
+    with millisecond resolution."""
+    ghost("loop_time").append(now)
+    ms = t._monotonic_ms()
+    assert isinstance(ms, int)
+    assert ms <= now * 1000 < ms + 1
